@@ -77,16 +77,9 @@ def load_mutants():
 
 
 def make_mutant_tree(mut, dest):
-    if os.path.exists(dest):
-        shutil.rmtree(dest)
-    os.makedirs(dest)
-    shutil.copytree(
-        os.path.join(core.REPO, "nsl"),
-        os.path.join(dest, "nsl"),
-        ignore=shutil.ignore_patterns("__pycache__", "parsetab.py", "parser.out"),
-    )
-    for f in ("nslc.py", "nslr.py"):
-        shutil.copy2(os.path.join(core.REPO, f), os.path.join(dest, f))
+    from . import repo
+
+    repo._copy_tree(core.REPO, dest, with_table=False)
     for ed in mut["edits"]:
         p = os.path.join(dest, ed["file"])
         with open(p, encoding="utf-8-sig") as f:
